@@ -226,7 +226,7 @@ fn c17_lfo_public_ops_no_panic() {
     kani::assume(f >= 0.0 && f <= fs);
     let mut l = Lfo::new(fs);
     l.set_frequency(f);
-    vassert!(l.phase_accumulator.verif_inc() <= N24 + 2, "C17/lfo/increment-at-most-one-cycle");
+    vassert!(l.phase_accumulator.verif_inc() <= N24, "C17/lfo/increment-at-most-one-cycle");
     l.tick();
     l.tick();
     let flags: u8 = kani::any();
